@@ -167,6 +167,18 @@ fn cases(rng: &mut Rng, id: usize) -> Vec<Case> {
             let np = 250 + rng.below(20);
             let params: Vec<String> = (0..np).map(|i| format!("p{i}")).collect();
             let pr: Vec<&str> = params.iter().map(|s| s.as_str()).collect();
+            // closures nested two deep whose innermost body names more variables of the enclosing bodies than fit in one
+            // closure's capture list: the front-end must answer with a program or an error
+            {
+                let na = 120 + rng.below(150);
+                let nb = 120 + rng.below(150);
+                let mut outer: Vec<C> = (0..na).map(|i| setv(&format!("a{i}"), int(i as i64))).collect();
+                let mut mid: Vec<C> = (0..nb).map(|i| setv(&format!("b{i}"), int(i as i64))).collect();
+                let inner: Vec<C> = (0..na).map(|i| setg("s", read(&format!("a{i}")))).chain((0..nb).map(|i| setg("s", read(&format!("b{i}"))))).collect();
+                mid.push(setg("k", closure(&[], inner)));
+                outer.push(setg("m", closure(&[], mid)));
+                v.push(dflt("compile-only", prog(outer, vec![]), false));
+            }
             let fam2 = if np > 255 { "too-many-locals" } else { "any" };
             v.push(dflt(fam2, prog(vec![call("many", (0..np).map(|i| int(i as i64)).collect())], vec![func("many", &pr, vec![card("Return", vec![read("p0")])])]), fam2 == "any"));
         }
